@@ -267,6 +267,61 @@ def text_side(RT, text):
     return lin_text(I, I.call_fn(LINEARIZE, [r.args[0]]))
 
 
+TC = "parser::pre_model::PreModel::create_type_checker"
+
+
+def api_constant_cases():
+    """(label, constants supplied through the API as text lines, the rest of the program)"""
+    body = lambda cons, where, define: "min sum(i in 0..n) { x_i }\ns.t.\n" + "\n".join("    " + c for c in cons) + ("\nwhere\n" + "\n".join("    " + w for w in where) if where else "") + "\ndefine\n" + "\n".join("    " + d for d in define) + "\n"
+    return [
+        ("a text constant defined from an API constant", ["let W = [3, 1, 4]"], (["x_i >= W[i] for i in 0..n"], ["let n = len(W)"], ["x_i as NonNegativeReal for i in 0..n"])),
+        ("two API constants, one text constant from both", ["let W = [3, 1, 4]", "let c = 2"], (["x_i >= W[i] + k for i in 0..n"], ["let n = len(W)", "let k = c * 2"], ["x_i as NonNegativeReal for i in 0..n"])),
+        ("a graph through the API", ["let G = Graph { A -> [ B: 2 ], B }", "let n = 2"], (["x_0 + x_1 >= len(nodes(G))", "x_i <= m for i in 0..n"], ["let m = len(edges(G)) + 5"], ["x_i as NonNegativeReal for i in 0..n"])),
+        ("all constants through the API", ["let W = [3, 1, 4]", "let n = 3"], (["x_i >= W[i] for i in 0..n"], [], ["x_i as NonNegativeReal for i in 0..n"])),
+    ]
+
+
+def check_constant_sources(RT, R):
+    """the same program with its constants written in the text, or some of them supplied through the API, is accepted
+    by the type checker and compiles to the same linear model"""
+    I = RT.I
+    where = "packages/rooc/src/parser/pre_model.rs"
+    body = lambda cons, wh, define: "min sum(i in 0..n) { x_i }\ns.t.\n" + "\n".join("    " + c for c in cons) + ("\nwhere\n" + "\n".join("    " + w for w in wh) if wh else "") + "\ndefine\n" + "\n".join("    " + d for d in define) + "\n"
+    for label, api_lines, (cons, text_lines, define) in api_constant_cases():
+        key = "constants:" + label.replace(" ", "-")
+        all_text = body(cons, api_lines + text_lines, define)
+        want = text_side(RT, all_text)
+        # the API constants are the Constant values the crate itself builds for those lines
+        carrier = RT.parse_text(body(["x_0 >= 0"], api_lines, ["x_0 as Real"]).replace("sum(i in 0..n) { x_i }", "x_0"))
+        if isinstance(carrier, tuple) or not isinstance(carrier.fields.get("constants"), ListV):
+            R.undecided("FRONT-DOOR-EQUIV", key, where, "API constants could not be built: %r" % (carrier,))
+            continue
+        consts = carrier.fields["constants"]
+        rest = body(cons, text_lines, define)
+        ast = RT.parse_text(rest)
+        if isinstance(ast, tuple):
+            R.undecided("FRONT-DOOR-EQUIV", key, where, "program not parsed: %s" % ast[1][:200])
+            continue
+        r = I.call_fn(TC, [ast, ListV(list(consts.items)), ListV([])])
+        if is_unknown(r):
+            R.undecided("FRONT-DOOR-EQUIV", key + ":typecheck", where, "type checker not evaluable: %r" % (r,))
+        else:
+            R.ob("FRONT-DOOR-EQUIV", key + ":typecheck", isinstance(r, Var) and r.path.endswith("Result::Ok"), where, "with %s supplied through the API the type checker answers %r (with everything in the text the program compiles)" % (api_lines, r))
+        ast = RT.parse_text(rest)
+        r = I.call_fn(TRANSFORM, [ast, ListV(list(consts.items)), ListV([])])
+        if is_unknown(r) or not isinstance(r, Var):
+            R.undecided("FRONT-DOOR-EQUIV", key + ":model", where, "transformer not evaluable: %r" % (r,))
+            continue
+        if not r.path.endswith("Result::Ok"):
+            R.ob("FRONT-DOOR-EQUIV", key + ":model", False, where, "with %s supplied through the API the transformer answers %r" % (api_lines, r))
+            continue
+        got = lin_text(I, I.call_fn(LINEARIZE, [r.args[0]]))
+        if isinstance(got, tuple) and got[1].startswith("not evaluable") or isinstance(want, tuple) and "not evaluable" in want[1]:
+            R.undecided("FRONT-DOOR-EQUIV", key + ":model", where, "compile step not evaluable")
+            continue
+        R.ob("FRONT-DOOR-EQUIV", key + ":model", got == want, where, "constants %s through the API: linear model `%s`; all in the text: `%s`" % (api_lines, str(got).replace("\n", " / ")[:200], str(want).replace("\n", " / ")[:200]))
+
+
 def check(F, R, Gm, tier="quick"):
     RT = roundtrip.RoundTrip(F, Gm)
     I = RT.I
@@ -301,3 +356,4 @@ def check(F, R, Gm, tier="quick"):
                 R.ob("FRONT-DOOR-EQUIV", key + ":" + order, False, where, "line %d of the linear model: the text `%s` gives `%s`, the builder calls give `%s`" % (d + 1, text.replace("\n", " / ")[:160], lw[d] if d < len(lw) else "<end>", lg[d] if d < len(lg) else "<end>"))
                 continue
             R.ob("FRONT-DOOR-EQUIV", key + ":" + order, True, where, "same linear model from the text and from the builder calls (%d lines)" % len(want.split("\n")))
+    check_constant_sources(RT, R)
